@@ -1,5 +1,6 @@
 """Job registry: property id -> list of CBMC queries per tier."""
 from vlib.core import Job
+import re
 
 CODECS = [("base32", "base32_ops", 32, 5, 5, 8, "base32.c"),
           ("base64", "base64_ops", 64, 6, 3, 4, "base64.c"),
@@ -264,7 +265,146 @@ def c12_jobs(tier):
     return readname_jobs(tier) + decode_jobs(tier)
 
 
-HOOK_COMMITS = ["d1d19fe", "9d69ff3"]
+
+# ---------------------------------------------------------------------------------------------
+# Server step harness (S_step.c): one request from an arbitrary valid state, cell = command letter x slot
+STEP_B = 80
+SHRINK_STEP = [(r"dnscache_answer\[DNSCACHE_LEN\]\[4096\]", "dnscache_answer[DNSCACHE_LEN][72]"),
+               (r"char in\[512\];", "char in[64];"), (r"char pkt\[4096\];", "char pkt[82];"),
+               (r"#define QMEMPING_LEN 30", "#define QMEMPING_LEN 3"), (r"#define QMEMDATA_LEN 15", "#define QMEMDATA_LEN 3"),
+               (r"#define OUTPACKETQ_LEN 4\b", "#define OUTPACKETQ_LEN 2"), (r"#define DNSCACHE_LEN 4\b", "#define DNSCACHE_LEN 2")]
+def memcpy_inline(m):
+    """source transform for the scratch copy of iodined.c: memcpy statement -> typed copy at the call site (see S_step.c)"""
+    d, s, n = m.group(1).strip(), m.group(2).strip(), m.group(3).strip()
+    if n == "sizeof(struct query)":
+        return "VS_CP_QUERY(%s, %s);" % (d, s)
+    if re.search(r"->fromlen2?$", n) and "(struct sockaddr" not in d:
+        return "VS_CP_SS(%s, %s, %s);" % (d, s, n)
+    return "VS_CP_BYTES(%s, %s, %s);" % (d, s, n)
+
+
+MEMCPY_SUBST = [(r"\bmemcpy\(([^;]*?),\s*([^;,]*(?:\([^;]*?\))?[^;,]*?),\s*([^;,]*(?:\([^;]*?\))?[^;,]*?)\);", memcpy_inline)]
+STUB_SC_SUBST = [(r"static int send_chunk_or_dataless\(int dns_fd, int userid, struct query \*q\)\n\{",
+                  "static int real_send_chunk_or_dataless(int dns_fd, int userid, struct query *q)\n{")]
+STEP_UNITS = ["encoding.c", "base32.c", "base64.c", "base64u.c", "base128.c", "user.c", "fw_query.c", "login.c", "md5.c",
+              "dns.c", "read.c"]
+CMD_LETTERS = "VLIZSOYRNP"
+
+
+OUT_UIDS = {"V": [-1], "L": [2, -1, 127, -128, 16], "N": [2, -1, 127, -128, 16], "P": [2, -1, 127, -128, 16],
+            "I": [2, 31, 15, 16], "S": [2, 31, 15, 16], "O": [2, 31, 15, 16], "R": [2, 15, 8]}
+OTHER_QUICK = [0x01, 0x2f, 0x3a, 0x40, 0x47, 0x60, 0x67, 0x7a, 0x80, 0xff]   # neighbours of the letter/digit ranges + extremes
+
+
+def cq(c):
+    """C character constant for byte value / char c"""
+    v = c if isinstance(c, int) else ord(c)
+    return "(%d)" % (v if v < 128 else v - 256)
+
+
+def step_cells(tier, lower=None):
+    """(cellname, defs) for MODE 1: first character x slot number, both concrete per cell."""
+    cells = []
+    q = tier == "quick"
+    lower = (not q) if lower is None else lower
+    letters = [c for c in CMD_LETTERS] + ([c.lower() for c in CMD_LETTERS] if lower else ["p", "l"])
+    for c in letters:
+        if c in "ZzYy":
+            cells.append(("%s" % c, {"CMDCH": cq(c)}))
+            continue
+        outs = OUT_UIDS[c.upper()]
+        outs = outs[:2] if q else outs
+        for uid in [0, 1] + outs:
+            if c.islower() and q and uid != 1:
+                continue
+            cells.append(("%s-u%d" % (c, uid), {"CMDCH": cq(c), "UIDCELL": "(%d)" % uid}))
+    hexes = "0123456789abcdefABCDEF"
+    for c in (hexes if not q else "012fF"):
+        uid = int(c, 16)
+        if uid < 2:
+            # acting data cells: destination slot of a completed packet x upstream codec are cell parameters too
+            combos = [(-1, 0), (1 - uid, 0), (-1, 3)] if q else [(to, e) for to in (-1, 0, 1) for e in (0, 1, 2, 3)]
+            for to, e in combos:
+                cells.append(("data%s-u%d-to%d-e%d" % (c, uid, to, e),
+                              {"CMDCH": cq(c), "UIDCELL": "(%d)" % uid, "TOCELL": "(%d)" % to, "ENCSEL": e}))
+        else:
+            cells.append(("data%s-u%d" % (c, uid), {"CMDCH": cq(c), "UIDCELL": "(%d)" % uid}))
+    others = OTHER_QUICK if q else [v for v in range(256) if chr(v) not in hexes and chr(v).upper() not in CMD_LETTERS]
+    for v in others:
+        cells.append(("other%02x" % v, {"CMDCH": cq(v)}))
+    return cells
+
+
+def step_jobs(tier, groups, prefix, checks=False, nl=None, only=None, timeout=1500):
+    jobs = []
+    G = {"G_" + g: None for g in groups}
+    for cname, d in step_cells(tier):
+        if only and not re.search(only, cname):
+            continue
+        n = nl or (20 if tier == "quick" else 28)
+        if cname[0] in "Ll":
+            n = max(n, 34)      # a login name carries 17 bytes = 28 base32 chars
+        defs = {"MODE": 1, "NL": n, "NU": 2}
+        defs.update(d)
+        defs.update(G)
+        stub = cname[0] in "Pp" or cname.startswith("data")
+        if stub:
+            defs["STUB_SC"] = None
+        loops = {"start_new_outpacket": STEP_B + 4, "save_to_outpacketq": STEP_B + 4, "save_to_dnscache": STEP_B + 4, "send_raw": STEP_B + 4, "base32_reverse_init": 34, "base64_reverse_init": 66, "base64u_reverse_init": 66, "base128_reverse_init": 130,
+                 "handle_null_request": 2050 if cname[0] in "Rr" and cname[1] == "-" else STEP_B + 4, "send_chunk_or_dataless": STEP_B + 4, "start_new_outpacket": STEP_B + 4, "save_to_outpacketq": STEP_B + 4, "save_to_dnscache": STEP_B + 4, "send_raw": STEP_B + 4}
+        jobs.append(Job("%s-%s" % (prefix, cname), "S_step.c", defs=defs, units=STEP_UNITS,
+                        hunits=SERVER_HUNITS, scale=STEP_B, subst=SHRINK_STEP + MEMCPY_SUBST + (STUB_SC_SUBST if stub else []),
+                        unwind=max(n + 12, 34), loops=loops,
+                        checks=checks, timeout=timeout, mem_gb=10, flags=FS,
+                        desc="one request (first char %s, slot number %s) to the real handle_null_request() from an arbitrary valid 2-slot "
+                             "state; assertion groups %s%s" % (d["CMDCH"], d.get("UIDCELL", "n/a"), "+".join(groups),
+                                                              "; send_chunk_or_dataless = contract stub (proved in the emit-* cells)" if stub else ""),
+                        bounds="query name <= %d chars (all byte values), 2 slots, every slot field arbitrary within the invariant, "
+                               "64 KiB buffers scaled to %d, rings scaled (qmem 3, cache 2, queue 2), one address length per cell, "
+                               "clock/rand/zlib arbitrary" % (n, STEP_B),
+                        functions=["handle_null_request", "check_user_and_ip", "process_downstream_ack",
+                                   "handle_full_packet", "answer_from_dnscache", "answer_from_qmem", "find_available_user", "unpack_data"]))
+    return jobs
+
+
+def emit_jobs(tier, groups, prefix, checks=False, timeout=1500):
+    """MODE 4: the real send_chunk_or_dataless() against its contract (used as a stub in the ping/data cells)."""
+    jobs = []
+    G = {"G_" + g: None for g in groups}
+    for uid in (0, 1):
+        for qsel in (0, 1):
+            if tier == "quick" and uid == 0 and qsel == 0:
+                continue
+            defs = {"MODE": 4, "NL": 20, "NU": 2, "UIDCELL": uid, "QSEL": qsel, "CMDCH": "(80)"}
+            defs.update(G)
+            jobs.append(Job("%s-emit-u%d-%s" % (prefix, uid, "q" if qsel == 0 else "qsoon"), "S_step.c", defs=defs, units=STEP_UNITS,
+                            hunits=SERVER_HUNITS, scale=STEP_B, subst=SHRINK_STEP + MEMCPY_SUBST, unwind=34,
+                            loops={"base32_reverse_init": 34, "base32_decode": 8, "send_chunk_or_dataless": STEP_B + 4, "start_new_outpacket": STEP_B + 4, "save_to_outpacketq": STEP_B + 4, "save_to_dnscache": STEP_B + 4, "send_raw": STEP_B + 4},
+                            checks=checks, timeout=timeout, mem_gb=12, flags=FS,
+                            desc="the real send_chunk_or_dataless() on slot %d's held %s from an arbitrary valid state: contract, fragment "
+                                 "size/numbering/flag assertions at the answer hook" % (uid, "query" if qsel == 0 else "send-real-soon query"),
+                            bounds="2 slots arbitrary within the invariant, buffers scaled to %d, rings scaled, names <= 20 chars" % STEP_B,
+                            functions=["send_chunk_or_dataless", "get_from_outpacketq", "start_new_outpacket", "save_to_qmem_pingordata",
+                                       "save_to_dnscache"]))
+    return jobs
+
+
+import re
+FS = ["--max-field-sensitivity-array-size", "64"]
+
+def dev_auth(tier):
+    return step_jobs(tier, ["INV", "AUTH"], "step-auth")
+
+
+def dev_emit(tier):
+    return emit_jobs(tier, ["INV", "FRAG"], "x")
+
+
+def dev_all(tier):
+    return step_jobs(tier, ["INV", "AUTH", "FRAG", "ANS"], "step-all")
+
+
+HOOK_COMMITS = ["d1d19fe", "9d69ff3", "db1ee90"]
 PENDING = {}
 
 PROPS = {
@@ -346,3 +486,55 @@ PROPS = {
                         "char is signed (x86-64 gcc ABI), as in the real build"],
     },
 }
+
+
+def dev_none(tier):
+    return step_jobs(tier, [], "step-none")
+
+
+def dev_inv(tier):
+    return step_jobs(tier, ["INV"], "step-inv")
+
+
+def dev_m0(tier):
+    js = step_jobs(tier, [], "step-m0", only="^Z$")
+    for j in js:
+        j.defs["MODE"] = 0
+    return js
+
+
+def dev_x1(tier):
+    js = step_jobs(tier, ["AUTH"], "x1", only="^Z$")
+    for j in js:
+        j.defs["NO_BYTECAST"] = None
+    return js
+
+
+def dev_x2(tier):
+    out = []
+    for p in (0, 1, 2, 4, 8):
+        js = step_jobs(tier, ["AUTH"], "x2p%d" % p, only="^Z$")
+        for j in js:
+            j.defs["SAME_PARTS"] = p
+        out += js
+    return out
+
+
+def dev_cut(tier):
+    import os
+    js = step_jobs(tier, ["AUTH"], "cut", only=os.environ.get("CUTCELL", "^P-u1$"))
+    out = []
+    cuts = {
+        "c1-after-cache": (r"(\t\t/\* Check if duplicate \(and not in full dnscache any more\) \*/\n\t\tif \(answer_from_qmem\(dns_fd, q, users\[userid\]\.qmemping_cmc)", r"__CPROVER_assume(0);\n\1"),
+        "c2-after-qmem": (r"(\t\tdn_seq = unpacked\[1\] >> 4;)", r"__CPROVER_assume(0);\n\1"),
+        "c3-after-ack": (r"(\t\tif \(debug >= 3\) \{\n\t\t\tfprintf\(stderr, \"PINGret)", r"__CPROVER_assume(0);\n\1"),
+        "c4-before-store": (r"(\t\t/\* Save new query and time info \*/\n\t\tmemcpy\(&\(users\[userid\]\.q\), q, sizeof\(struct query\)\);\n\t\tusers\[userid\]\.last_pkt = time\(NULL\);\n\n\t\t/\* If anything waiting and we)", r"__CPROVER_assume(0);\n\1"),
+    }
+    for cn, sub in cuts.items():
+        for j in js:
+            import copy
+            k = copy.copy(j)
+            k.name = j.name + "-" + cn
+            k.subst = [sub] + list(j.subst)
+            out.append(k)
+    return out
